@@ -25,3 +25,25 @@ PROPS["C17"] = {
          "thorough": {"shards": 16, "checks": 3000000, "cap": 3600}},
     ],
 }
+
+PROPS["C09"] = {
+    "level": "exploration",
+    "rule": ("pairs: a generated target state A (label, command, declared inputs with real files, outputs, dependency digests, fingerprint, platform) and a state B derived by a named relation; "
+             "must-equal relations: permutations of every list / map insertion order, checkout location, mtimes, bystander files, platform under multiplatform-cache; "
+             "must-differ relations: every single-component edit and a concatenation-preserving boundary shift for every pair of adjacent components. "
+             "alias: dependant whose dependency is declared directly or through 1-3 aliases, dependency output digest h1 vs h2. "
+             "Non-trivial = a non-identity permutation/relocation or a boundary shift (pairs), an alias chain >= 1 (alias); distinct by full case."),
+    "assumptions": [
+        "keys are compared under xxh3 and sha256; a must-differ pair fails only when equal under both (encoding collision)",
+        "duplicate entries in an input list and declared-but-absent inputs that differ only by name are not generated (the statement speaks of a set of (path, content) pairs)",
+    ],
+    "nt_floor": 0.3,
+    "parts": [
+        {"name": "pairs", "pkg": "c09", "test": "TestPairs",
+         "quick": {"shards": 8, "checks": 24000, "cap": 900},
+         "thorough": {"shards": 16, "checks": 2000000, "cap": 7200}},
+        {"name": "alias", "pkg": "c09", "test": "TestAliasDeps",
+         "quick": {"shards": 1, "checks": 2000, "cap": 300},
+         "thorough": {"shards": 2, "checks": 100000, "cap": 1800}},
+    ],
+}
